@@ -238,6 +238,14 @@ impl TryFrom<OpenFile> for Stdio {
         // fail (e.g. under descriptor exhaustion), so the conversion is fallible and the error is
         // surfaced to the caller rather than silently degrading the child's streams.
         match open_file {
+            // `Stdio::inherit()` means "the parent's descriptor of the slot being filled", which is
+            // only right when the stream fills its own slot. After e.g. `2>&1` the child's stderr
+            // slot holds the shell's *stdout*; hand over a duplicate of the stream that is named.
+            #[cfg(unix)]
+            OpenFile::Stdin(_) | OpenFile::Stdout(_) | OpenFile::Stderr(_) => {
+                Ok(open_file.try_clone_to_owned()?.into())
+            }
+            #[cfg(not(unix))]
             OpenFile::Stdin(_) | OpenFile::Stdout(_) | OpenFile::Stderr(_) => Ok(Self::inherit()),
             OpenFile::File(f) => Ok(f.try_clone()?.into()),
             OpenFile::PipeReader(r) => Ok(r.try_clone()?.into()),
